@@ -261,7 +261,8 @@ def check_compact(text, m):
 # ---------------------------------------------------------------------------
 # generators of values and messages
 
-NAMES_BEFORE = ["A", "0", "_x", "Zeta", "", " ", "!bang", "action", "action_statur", "action_status0", "Task_uuid"]
+NAMES_BEFORE = ["A", "0", "_x", "Zeta", "", " ", "!bang", "action", "action_statur", "action_status0", "Task_uuid",
+                "J", "SKIP", "datetime", "timedelta"]
 NAMES_BETWEEN = ["action_typf", "b", "message", "message_typ", "message_type2", "n", "task", "task_levek",
                  "task_uuid_", "timestam", "timestamp2", "exception", "reason"]
 NAMES_AFTER = ["zz", "~", "x", "\u00e9", "\u043a\u043b\u044e\u0447", "\u540d\u524d", "\U0001F600", "\uffff", "timestamp\u00e9"]
@@ -1021,3 +1022,91 @@ LEVEL_NOTE = ("Partial in the sense of DESIGN 11: pprint.pformat, json.dumps/loa
               "field value nests deeper than pprint can render (about 330 levels; Eliot cannot emit it) stops the default mode "
               "with RecursionError: known finding C20-deep-value-pformat-recursion, kept as a corpus case. Lone surrogates in "
               "task_uuid / field names versus a strict UTF-8 stdout are environment-dependent and outside the model (stated guard).")
+
+
+# ---- messages produced by the real logging API (not hand-made dictionaries), rendered by both formatters ----------------
+def gen_emitted(rng, tier):
+    out = []
+    for _ in range(30 if tier == "quick" else 500):
+        ops = []
+        for _ in range(rng.randrange(1, 6)):
+            r = rng.random()
+            names = rng.sample(["x", "n", "timestamp", "task_level", "task_uuid", "message_type", "action_type", "action_status",
+                                "reason", "exception", "J"], rng.randrange(0, 3))
+            fields = [[k, rng.choice(["2024-05-01T12:00:00Z", "warning", 7, 1.5, None, [1, 2], {"a": 1}])] for k in names]
+            ops.append([rng.choice(["msg", "msg", "act", "act_fail", "tb"]), fields])
+        out.append({"ops": ops})
+    return out
+
+
+def impl_emitted(case):
+    import eliot
+    from eliot import _output, log_message, start_action, write_traceback
+    from eliot.prettyprint import pretty_format, compact_format
+    d = _output.Destinations()
+    _output.Logger._destinations = d
+    got = []
+    d.add(lambda m: got.append(dict(m)))
+    errors = []
+    for kind, fields in case["ops"]:
+        kw = {k: v for k, v in fields}
+        try:
+            if kind == "msg":
+                kw.pop("message_type", None)
+                log_message("emitted:msg", **kw)
+            elif kind in ("act", "act_fail"):
+                kw.pop("action_type", None)
+                try:
+                    with start_action(action_type="emitted:act", **kw):
+                        log_message("emitted:inner")
+                        if kind == "act_fail":
+                            raise ValueError("boom")
+                except ValueError:
+                    pass
+            else:
+                try:
+                    raise RuntimeError("tb")
+                except RuntimeError:
+                    write_traceback()
+        except BaseException as e:
+            errors.append("%s raised %s: %s" % (kind, type(e).__name__, e))
+    rendered = []
+    for m in got:
+        try:
+            json.dumps(m)
+        except Exception:
+            rendered.append(None)
+            continue
+        r = {"uuid": m.get("task_uuid"), "level": m.get("task_level"), "ts": m.get("timestamp")}
+        for name, fn in (("pretty", pretty_format), ("compact", compact_format)):
+            try:
+                r[name] = fn(dict(m))
+            except BaseException as e:
+                r[name + "_error"] = "%s: %s" % (type(e).__name__, e)
+        rendered.append(r)
+    return {"errors": errors, "rendered": rendered, "n": len(got)}
+
+
+def oracle_emitted(case, obs):
+    if obs["errors"]:
+        return "a logging call raised: %s" % obs["errors"][0]
+    for i, r in enumerate(obs["rendered"]):
+        if r is None:
+            continue
+        if not (isinstance(r["uuid"], str) and isinstance(r["level"], list) and all(isinstance(x, int) for x in r["level"])
+                and isinstance(r["ts"], float)):
+            return "emitted message %d has task_uuid=%r task_level=%r timestamp=%r" % (i, r["uuid"], r["level"], r["ts"])
+        for name in ("pretty", "compact"):
+            if name + "_error" in r:
+                return "%s_format raised on a message produced by the logging API: %s" % (name, r[name + "_error"])
+        lvl = "/" + "/".join(str(x) for x in r["level"])
+        head = "%s -> %s\n" % (r["uuid"], lvl)
+        if not r["pretty"].startswith(head):
+            return "pretty_format of an emitted message starts %r, expected %r" % (r["pretty"][:80], head)
+        if not r["compact"].startswith("%s%s " % (r["uuid"], lvl)) or "\n" in r["compact"].rstrip("\n"):
+            return "compact_format of an emitted message is %r" % r["compact"][:120]
+    return None
+
+
+FAMILIES.append(Family("emitted", gen_emitted, impl_emitted, None, None, oracle_emitted,
+                       lambda case, obs: json.dumps(case) if isinstance(obs, dict) and obs.get("n", 0) >= 2 else None, shard=15, case_timeout=30))
